@@ -106,6 +106,129 @@ def zero_test_edge(cn, lid):
     return None
 
 
+def logical_truth_table(fb, ev, arm):
+    """exact evaluation of the shared && / || arm of evaluateExpr over (operator, left, right) in {AND, OR} x {T, F}^2:
+    {(K, L, R): (returned truth value, right operand evaluated?)}.  Walks the arm's CFG with the bool locals bound; the two
+    operands are the nodes fetched first / second from the operand iterator.  Returns None if a construct is not understood."""
+    g = cfgm.CFG(ev)
+    fetch = []
+    for st_ in arm['eff']:
+        for x in sub(st_):
+            if x['k'] == 'DeclStmt':
+                for d_ in x.get('decls', []):
+                    if 'init' in d_ and 'PromelaParserNode' in (d_.get('t') or '') and any(y['k'] == 'DeclRefExpr' and y.get('ref', {}).get('name') == 'opIter' for y in sub(d_['init'])):
+                        fetch.append(d_['lid'])
+    if len(fetch) < 2:
+        return None
+    first = None
+    for st_ in arm['eff']:
+        for x in sub(st_):
+            if x['id'] in g.pos:
+                first = g.pos[x['id']]
+                break
+        if first:
+            break
+    if first is None:
+        return None
+
+    class Unknown(Exception):
+        pass
+    out = {}
+    for K in ('PML_AND', 'PML_OR'):
+        for L in (True, False):
+            for R in (True, False):
+                res = set()
+
+                def side(n):
+                    lids = {y['ref'].get('lid') for y in sub(n) if y['k'] == 'DeclRefExpr' and 'lid' in y.get('ref', {})}
+                    return 'L' if fetch[0] in lids else 'R' if fetch[1] in lids else None
+
+                def val(n, env, st):
+                    n = strip(n)
+                    k = n['k']
+                    if k == 'CXXBoolLiteralExpr':
+                        return bool(n.get('int', n.get('cval', n.get('val', 0))))
+                    if k == 'IntegerLiteral':
+                        return bool(n.get('int'))
+                    if k == 'DeclRefExpr' and n.get('ref', {}).get('lid') in env:
+                        return env[n['ref']['lid']]
+                    if k == 'UnaryOperator' and n.get('op') == '!':
+                        return not val(n['c'][0], env, st)
+                    if k == 'BinaryOperator' and n.get('op') in ('&&', '||'):
+                        a_ = val(n['c'][0], env, st)
+                        if (n['op'] == '&&' and not a_) or (n['op'] == '||' and a_):
+                            return a_
+                        return val(n['c'][1], env, st)
+                    if k == 'BinaryOperator' and n.get('op') in ('==', '!='):
+                        names = {y.get('ref', {}).get('name') for y in sub(n)} | {m[0] for y in sub(n) for m in (y.get('mac') or [])}
+                        for kk in ('PML_AND', 'PML_OR'):
+                            if kk in names:
+                                return (K == kk) == (n['op'] == '==')
+                    if k in ('CallExpr', 'CXXMemberCallExpr', 'CXXConstructExpr', 'CXXTemporaryObjectExpr', 'CXXFunctionalCastExpr', 'CXXBindTemporaryExpr', 'MaterializeTemporaryExpr', 'ExprWithCleanups'):
+                        calls = [y for y in sub(n) if y.get('callee', {}).get('q', '').endswith('evaluateExpr')]
+                        if calls:
+                            sd = side(calls[0])
+                            if sd == 'R':
+                                st['rhs'] = True
+                            if sd:
+                                return L if sd == 'L' else R
+                        inner = [c_ for c_ in n.get('c', []) if c_ is not None]
+                        # Data(x) / dataToBool(x): the value of the (last) argument
+                        if inner:
+                            return val(inner[-1], env, st)
+                    if k == 'ConditionalOperator':
+                        return val(n['c'][1], env, st) if val(n['c'][0], env, st) else val(n['c'][2], env, st)
+                    raise Unknown(k)
+                seen = set()
+                work = [(first[0], first[1], (), False)]
+                try:
+                    while work:
+                        b, i, envt, rhs = work.pop()
+                        if (b, i, envt, rhs) in seen:
+                            continue
+                        seen.add((b, i, envt, rhs))
+                        env = dict(envt)
+                        st = {'rhs': rhs}
+                        blk = g.blocks[b]
+                        done = False
+                        for j in range(i, len(blk['el'])):
+                            n = ev.nodes.get(blk['el'][j])
+                            if n is None:
+                                continue
+                            if n['k'] == 'ReturnStmt' and n.get('c'):
+                                res.add((val(n['c'][0], env, st), st['rhs']))
+                                done = True
+                                break
+                            if n['k'] == 'DeclStmt':
+                                for d_ in n.get('decls', []):
+                                    if 'init' in d_ and (d_.get('t') or '') in ('bool', '_Bool'):
+                                        env[d_['lid']] = val(d_['init'], env, st)
+                                    elif 'init' in d_ and 'Data' in (d_.get('t') or '') and any(y.get('callee', {}).get('q', '').endswith('evaluateExpr') for y in sub(d_['init'])):
+                                        env[d_['lid']] = val(d_['init'], env, st)
+                            if n['k'] == 'BinaryOperator' and n.get('op') == '=':
+                                l_ = strip(n['c'][0])
+                                if l_['k'] == 'DeclRefExpr' and l_.get('ref', {}).get('lid') in env:
+                                    env[l_['ref']['lid']] = val(n['c'][1], env, st)
+                        if done:
+                            continue
+                        succ = g.succ_labeled(b)
+                        c = blk.get('cond')
+                        if c is not None and c in ev.nodes and any(l is not None for _, l in succ):
+                            v = val(ev.nodes[c], env, st)
+                            for s_, lab in succ:
+                                if lab is None or lab == v:
+                                    work.append((s_, 0, tuple(sorted(env.items())), st['rhs']))
+                        else:
+                            for s_, lab in succ:
+                                work.append((s_, 0, tuple(sorted(env.items())), st['rhs']))
+                except Unknown:
+                    return None
+                if len(res) != 1:
+                    return None
+                out[(K, L, R)] = next(iter(res))
+    return out
+
+
 def check_divisions(rep, fb, rule):
     """every integer / and % in PromelaDataModel::evaluateExpr is dominated by a zero test of its divisor that leaves the arm"""
     ev0 = fb.fn('uscxml::PromelaDataModel::evaluateExpr', params=['void *'])
@@ -462,6 +585,16 @@ def run(rep, tier):
         if kind not in arm_of:
             continue
         a = arm_of[kind]
+        if len([x for x in a['names'] if x]) > 1 and cop in ('&&', '||') and {'PML_AND', 'PML_OR'} == {nm for nm in a['names'] if nm}:
+            # the logical arm: exact truth table of what it returns (if-form, operator form and short-circuit forms alike)
+            tt = logical_truth_table(fb, ev, a)
+            if tt is None:
+                raise AnalysisBroken('evaluateExpr: the shared && / || arm could not be evaluated symbolically')
+            nops += 1
+            wrong = [(k_, tt[k_][0]) for k_ in sorted(tt) if k_[0] == kind and tt[k_][0] != ((k_[1] and k_[2]) if kind == 'PML_AND' else (k_[1] or k_[2]))]
+            rep.check(not wrong, 'R17.6', kind, locstr(a['node']), 'truth table of the %s arm over (left, right): %s%s' % (cop, {(k_[1], k_[2]): tt[k_][0] for k_ in tt if k_[0] == kind},
+                      '' if not wrong else ' -- WRONG for %s' % [(k_[1], k_[2]) for k_, _ in wrong]))
+            continue
         if len([x for x in a['names'] if x]) > 1:
             # shared arm: the operator of `kind` must be applied to the two evaluated operands under the test of node->type
             # for `kind` (nested switch, if-chain or conditional), or as the one unguarded remainder of such a chain
@@ -551,3 +684,65 @@ def run(rep, tier):
 
     check_divisions(rep, fb, 'R17.5')
     check_index_bounds(rep, fb, 'R17.5')
+
+    # ---- R17.7 .. R17.10 (audit round)
+    rep.rule('R17.7', 'a declaration without initialiser keeps its zero default: PromelaDataModel::init stores the initial value only under a non-emptiness test of that value (<data id="u" type="int"/> hands an empty Data, which otherwise wipes the 0 that evaluateDecl stored)')
+    ini = fb.fn('uscxml::PromelaDataModel::init')
+    gi = cfgm.CFG(ini)
+    from .C08 import edge_dominates
+    dpar = [p_['lid'] for p_ in ini.d.get('params', []) if 'Data' in (p_.get('t') or '')]
+    stores = [n for n in ini.walk() if n.get('callee', {}).get('q', '').endswith('PromelaDataModel::setVariable') and n['id'] in gi.pos]
+    rep.minimum('R17.7', len(stores), 1, 'setVariable calls in PromelaDataModel::init')
+    for st in stores:
+        raw = len(st.get('c', [])) > 2 and strip(st['c'][2]) is not None and strip(st['c'][2])['k'] == 'DeclRefExpr' and strip(st['c'][2]).get('ref', {}).get('lid') in dpar
+        if not raw:
+            continue          # stores a value computed from a non-empty atom
+        tb = gi.pos[st['id']][0]
+        guarded = False
+        for bid, blk in gi.blocks.items():
+            c = blk.get('cond')
+            if c is None or c not in ini.nodes or bid == tb:
+                continue
+            cn = ini.nodes[c]
+            if any(x.get('callee', {}).get('q', '').split('::')[-1] == 'empty' and x['c'][0].get('c') and strip(x['c'][0]['c'][0]).get('ref', {}).get('lid') in dpar for x in sub(cn) if x['k'] == 'CXXMemberCallExpr'):
+                if edge_dominates(gi, bid, False, tb) or edge_dominates(gi, bid, True, tb):
+                    guarded = True
+        rep.check(guarded, 'R17.7', 'init|store of the given value', locstr(st), 'the value handed to init() is stored %s' % (
+            'only if it is not empty' if guarded else 'also when it is EMPTY: a declared variable or array without initialiser reads as "" instead of 0 (u + 1 raises "Operand is not integer", cond="u" and cond="!u" are both true)'))
+
+    rep.rule('R17.8', 'logical operators short-circuit: the arm of && / || evaluates its right operand only under a test of the left operand\'s value (x != 0 && 10 / x > 1 is 0 in Promela and C, not a division by zero)')
+    for kind in ('PML_AND', 'PML_OR'):
+        if kind not in arm_of:
+            continue
+        a = arm_of[kind]
+        tt = logical_truth_table(fb, ev, a)
+        if tt is None:
+            raise AnalysisBroken('evaluateExpr: the %s arm could not be evaluated symbolically' % kind)
+        # the right operand is needed iff the left one does not decide: AND with left true, OR with left false
+        eager = [(k_[1], k_[2]) for k_ in sorted(tt) if k_[0] == kind and tt[k_][1] and not ((kind == 'PML_AND') == k_[1])]
+        rep.check(not eager, 'R17.8', kind, locstr(a['node']), 'the right operand of %s is evaluated %s' % (SPELL.get(kind, kind), 'only when the left operand does not decide the result' if not eager else
+                  'ALSO when the left operand decides (left, right = %s): a guard such as `x != 0 && 10 / x > 1` or `i < 3 && a[i] == 0` raises error.execution where Promela yields 0' % eager))
+
+    rep.rule('R17.9', 'integer constants are converted with a range check: the PML_CONST arm does not hand the digits to an unchecked strTo<int> (2147483648 saturates to INT_MAX, 4294967297 too, `skip` reads as 0)')
+    ca = arm_of.get('PML_CONST')
+    if ca is None:
+        raise AnalysisBroken('evaluateExpr: no arm for PML_CONST')
+    unchecked = [x for st_ in ca['stmts'] for x in sub(st_) if x.get('callee', {}).get('q', '') == 'uscxml::strTo' and (x.get('t') or '') in ('int', 'long', 'unsigned int')]
+    helper_checked = any(x.get('callee', {}).get('q', '').split('::')[-1] in ('strtoll', 'strtol', 'stoll', 'stol') or 'ConstantToInt' in x.get('callee', {}).get('q', '') for st_ in ca['stmts'] for x in sub(st_))
+    rep.check(not unchecked or helper_checked, 'R17.9', 'PML_CONST', locstr(ca['node']), 'the constant arm converts %s' % ('with a checked conversion' if not unchecked or helper_checked else 'with strTo<int> and never looks at the stream state: out-of-range literals silently become INT_MAX (2147483648 == 2147483647 is true)'))
+
+    rep.rule('R17.10', 'struct paths keep their array index: the walk over the components of a compound name (s.arr[i]) in setVariable / getVariable distinguishes array components (PML_VAR_ARRAY) from plain names')
+    for q_ in ('uscxml::PromelaDataModel::setVariable', 'uscxml::PromelaDataModel::getVariable'):
+        fv = fb.fn(q_)
+        sw_ = [n for n in fv.walk() if n['k'] == 'SwitchStmt']
+        cm = None
+        for w_ in sw_:
+            for a_ in tab.switch_arms(w_):
+                if 'PML_CMPND' in [nm for nm in a_['names'] if nm]:
+                    cm = a_
+        if cm is None:
+            raise AnalysisBroken('%s: no arm for PML_CMPND' % q_)
+        loops = [x for st_ in cm['stmts'] for x in sub(st_) if x['k'] in ('WhileStmt', 'ForStmt', 'DoStmt', 'CXXForRangeStmt')]
+        aware = any(y['k'] == 'DeclRefExpr' and y.get('ref', {}).get('name') == 'PML_VAR_ARRAY' for l_ in loops for y in sub(l_))
+        rep.check(aware or not loops, 'R17.10', q_.split('::')[-1] + '|compound path', locstr(cm['node']), 'the walk over the components of a compound name %s' % (
+            'handles array components' if aware or not loops else 'uses node->value for every component: an array component has an empty value, so every s.arr[i] is the one hidden field "" (s.arr[1] = 5; s.arr[2] = 7 leaves s.arr[1] == 7 and s.arr unchanged)'))
